@@ -28,7 +28,8 @@ MANIFEST_TEXT = ("Lean 4 theorems for all element sizes, alignments, pool sizes,
                  "must be kept with the entry). The geometry, validation and "
                  "page formulas the theorems talk about are regenerated from the four headers on every run; the state machines "
                  "(incl. what the #if DEBUG_ALLOCATOR_KEEP branch of deallocate does, the not_free bookkeeping and the destructor's "
-                 "loop) are run against the real allocators (28 element types, sizeof 1..1000, alignof 1..128; the debug manager "
+                 "loop) are run against the real allocators (28 element types, sizeof 1..1000, alignof 1..128, for the request "
+                 "validation of Malloc/AlignedAllocator also three types of 8 GiB..16 TiB that are only named; the debug manager "
                  "also as an object owned by the case in both configurations of DEBUG_ALLOCATOR_KEEP so that its destructor runs, "
                  "the pool also compiled with NDEBUG; allocation with a hint, through copies and through allocators converted from "
                  "another element type, and through std::allocator_traits<A>::rebind_alloc<U> for a U of twice the size, checked against "
@@ -69,7 +70,9 @@ RULE = ("case = one allocator instance (kind x element type from 28 (sizeof,alig
         "kinds dbgmgr <keep> = AllocationManager owned by the case in configuration DEBUG_ALLOCATOR_KEEP=<keep>, destroyed at "
         "the end of the case; poolnd/pand = Pool/PoolAllocator compiled with NDEBUG (no foreign frees); raw ops h<n> "
         "allocate(n, hint), c<n> allocate through a copy, g<k>/G<k> deallocate through a copy / a converted allocator, r<n> allocate n objects of twice the size through the rebound "
-        "allocator allocator_traits<A>::rebind_alloc<U>); distinct = distinct "
+        "allocator allocator_traits<A>::rebind_alloc<U>); Malloc/AlignedAllocator also for three element types that are only named, "
+        "never created (sizeof 2^33+8, 2^38+1, 2^44+64): every n >= 1 is unservable there and n*sizeof(T) wraps to ordinary sizes "
+        "for small n, so only n = 0 and unservable counts (around max_size, multiples of max_size+1) are asked; distinct = distinct "
         "op lines; non-trivial = every case whose oracle ran (unsupported configurations are trivial)")
 ASSUMPTIONS = [
     "the state machines in lean/DuneVerif/Model/C15.lean (intrusive pool IPool = transcription of Pool::grow/allocate/free; list model Pool proved equivalent; allocation list of the debug manager) are hand-written; their fidelity to the headers rests on this differential run, in which the driver executes the intrusive pool and cross-checks it against the list model",
@@ -78,7 +81,7 @@ ASSUMPTIONS = [
     "a formula rewritten in the source into a textually different one that agrees with the form the proofs were written against on the translator's whole grid (sizeof 1..130, alignof 1..128, ~30 pool sizes; counts around max_size; capacities around page multiples) is emitted in that known form, with the source text kept as a comment in Gen/C15.lean; any value difference on the grid emits the source's own expression",
     "LP64 target: sizeof(void*) = alignof(void*) = 8, size_t has 64 bits, alignof(std::max_align_t) = 16, page size 4096 in the corpus files",
     "operator new / malloc / aligned_alloc / mmap return disjoint, suitably aligned, usable memory (trusted, not modelled)",
-    "requests up to 64 MiB are expected to be served, requests of 2^47 bytes and more cannot be served; nothing in between is generated",
+    "requests up to 64 MiB are expected to be served, requests of 2^47 bytes and more cannot be served; nothing in between is generated (for the three giant element types of the Malloc/AlignedAllocator cases, sizeof 2^33+8 .. 2^44+64, that leaves n = 0 and the unservable counts)",
     "pool histories are valid: only blocks obtained from the pool and not yet freed are given back (plus nullptr / addresses outside every chunk, which must throw because the harness is compiled without NDEBUG)",
     "debug histories are valid: deallocate is called with pointers of live blocks and their size (or 0) and element type; mmap returns page-aligned ranges disjoint from the mappings in use",
     "DEBUG_ALLOCATOR_KEEP: mmap returns ranges disjoint from every mapping that still exists, which includes the mappings of released blocks because the KEEP branch of deallocate does not unmap (generated constant dbgKeepFreeUnmaps = false, lemma keepUnmaps_eq); if the source starts to unmap there, the lemma and with it the obligations break",
